@@ -13,6 +13,10 @@ class RealOps (R : Type) where
   sqrt : R → R
   lt : R → R → Bool
   le : R → R → Bool
+  sin : R → R
+  cos : R → R
+  tan : R → R
+  pi : R
 
 /-- `K` plays the role of the complex numbers over `R`. `expI x = exp (i x)`. -/
 class CplxOps (R : outParam Type) (K : Type) where
@@ -53,6 +57,10 @@ instance : RealOps Float where
   sqrt := Float.sqrt
   lt a b := a < b
   le a b := a ≤ b
+  sin := Float.sin
+  cos := Float.cos
+  tan := Float.tan
+  pi := 3.141592653589793
 
 instance : CplxOps Float CF where
   ofReal x := ⟨x, 0⟩
